@@ -306,7 +306,7 @@ def ev_block(case):
 
 # ---- the density and the cumulative function are FUNCTIONS of x: an array argument = the same points one at a time -------
 ARRAY_SIZES = [1, 2, 3, 31, 32, 33, 34, 100, 1000]
-ARRAY_SIZES_THOROUGH = [1, 2, 3, 4, 5, 8, 15, 16, 17, 31, 32, 33, 34, 63, 64, 65, 100, 127, 128, 129, 255, 256, 257, 500, 1000, 1023, 1024, 1025, 4097]
+ARRAY_SIZES_THOROUGH = [1, 2, 3, 4, 5, 8, 15, 16, 17, 31, 32, 33, 34, 63, 64, 65, 100, 127, 128, 129, 255, 256, 257, 500, 511, 512, 513, 1000, 1023, 1024, 1025, 2049]
 ARRAY_LAYOUTS = ["span", "quantiles", "cluster"]
 ARRAY_ORDERS = ["sorted", "reversed", "scrambled"]
 TOL_PDF_POINT = TOL_MODE  # | pdf(array)[i] - pdf(x_i) | / peak  (the convention already used for density values: 1e-3 of the peak)
@@ -451,11 +451,12 @@ def run(ck):
     for ci, cls_name in enumerate(("GaussianKDE", "UnimodalPdf")):
         for fi, fam in enumerate(fams[cls_name]):
             for n in (300,) if quick else (300, 3000):
-                pairs = [(1.0, 0.0)] + ([tf[(seed + ci + fi) % len(tf)]] if quick else tf)
+                # the base problem with the full list of sizes; transformed problems (n = 300) with the short list
+                pairs = [(1.0, 0.0)] + ([] if n != 300 else ([tf[(seed + ci + fi) % len(tf)]] if quick else tf))
                 for a, loc in pairs:
                     for layout in ARRAY_LAYOUTS:
                         acases.append({"cls": cls_name, "family": fam, "n": n, "scale": a, "loc": loc, "stride": stride, "layouts": [layout],
-                                       "sizes": ARRAY_SIZES if quick else ARRAY_SIZES_THOROUGH, "orders": ARRAY_ORDERS})
+                                       "sizes": ARRAY_SIZES if (quick or (a, loc) != (1.0, 0.0)) else ARRAY_SIZES_THOROUGH, "orders": ARRAY_ORDERS})
     ck.run_cases("arrays", acases, chunk=1)
     ck.rule = (
         "quantile samples %s (bimodal for the KDE only) x n in %s + 20000%s x scale %s x location %s sd x fractions %s; each problem: own-density "
@@ -464,7 +465,7 @@ def run(ck):
         "%s points in 3 layouts (equally spaced over the data +- 3 sd; the sample's own quantiles with far outer points; all but four points within 0.05 sd of the median) "
         "x 3 orders (ascending, descending, a fixed non-monotone permutation) against the same points passed singly as floats; distinct = (estimator, layout, size, order)."
         % (fams["GaussianKDE"], list(sizes), " (one scale per estimator and family, rotating with the seed)" if quick else "", scales, locs, fractions,
-           "" if quick else " and 3000", "one transformed problem rotating with the seed" if quick else "3 transformed problems", ARRAY_SIZES if quick else ARRAY_SIZES_THOROUGH)
+           "" if quick else " and 3000", "one transformed problem rotating with the seed" if quick else "3 transformed problems at n=300 with the sizes %s" % ARRAY_SIZES, ARRAY_SIZES if quick else ARRAY_SIZES_THOROUGH)
     )
     ck.assume("'any reasonable sample' = the listed deterministic quantile samples (deterministically permuted), n <= 20000")
     ck.assume("conventions for the approximate clauses as in DESIGN.md C19 (normalisation 1e-3, cdf pairs 1e-3 / absolute 3e-3, interval mass 2e-3, end densities 1% of the peak, mode 1e-3, moments 1e-3 sd / 0.5% / 0.02 / 0.05 plus 3x the moment carried outside the declared range)")
